@@ -222,3 +222,6 @@ func workerReplay(t *testing.T, prop *Prop, job *Job) {
 		fmt.Println(string(ob))
 	}
 }
+
+// TestNode is the entry point of NODE-engine child processes.
+func TestNode(t *testing.T) { nodeEntry(t) }
